@@ -5,15 +5,17 @@
 import Binson.Model.Parser
 namespace Binson
 
+/-- lines 136-140 of `binson_parser_reset`: memset of all `max_depth` state entries, cursor, depth, error -/
+def wipe (p : Parser) (d : Nat) : Parser :=
+  { p with depth := d, levels := Array.replicate p.levels.size Level.zero, err := .none, used := 0, cur := 0,
+           fault := p.fault || decide (p.levels.size < p.maxDepth) }
+
 /-- `binson_parser_reset` -/
 def reset (p : Parser) : Parser × Bool :=
   if p.maxDepth = 0 then (p, false) else
   let p := { p with depth := 0, used := 0, cur := 0 }
   if p.size < 2 then ({ p with err := .range }, false) else
   let p := (p.touchBuf 0 1).touchBuf (p.size - 1) 1
-  let wipe (p : Parser) (d : Nat) : Parser :=
-    { p with depth := d, levels := Array.replicate p.levels.size Level.zero, err := .none, used := 0, cur := 0,
-             fault := p.fault || decide (p.levels.size < p.maxDepth) }
   if p.ptype = 1 then
     if !(p.byte 0 = 0x40 ∧ p.byte (p.size - 1) = 0x41) then ({ p with err := .format }, false)
     else (wipe p 0, true)
